@@ -14,8 +14,8 @@ from pydbml import PyDBML  # noqa: E402
 PID = 'C15'
 THEOREMS_PLANNED = ['PyDBML.C15.render_off_ignores_props', 'PyDBML.C15.column_props_shown_iff_enabled',
             'PyDBML.C15.sql_ignores_props']
-THEOREMS = []
-MODULES = []
+THEOREMS = ['PyDBML.C15.column_props_hidden', 'PyDBML.C15.table_props_hidden', 'PyDBML.C15.column_props_shown', 'PyDBML.C15.sql_column_ignores_props']
+MODULES = ['PyDBMLProofs.Props.C15']
 
 
 def has_props(spec):
